@@ -55,8 +55,8 @@ fn main() {
                 Profile { steps: 70, comps: vec!["A"], marks: false, events: true, sess: profile == "events", ..Default::default() },
             ),
             "sess" => (
-                Cfg { ents: three(), ..Default::default() },
-                Profile { steps: 50, comps: vec!["A", "B"], sess: true, ..Default::default() },
+                Cfg { ents: three(), clients: clients(2), max_size: vec![1200; 2], ..Default::default() },
+                Profile { steps: 70, comps: vec!["A", "B"], sess: true, ..Default::default() },
             ),
             p => panic!("unknown profile {p}"),
         };
